@@ -167,6 +167,19 @@ PROPS = {
         "assumptions": ["address/percentage list and mint list are copied into the harness as specification; the code reads devs.go / mint.go",
                         "trigger conditions (height equality / modulo in SyncBlock and DBlockSync) and NullifyBurnAddress need the glue harness"],
     },
+    "C12": {
+        "asserts": ["C12.", "uncaught-panic"],
+        "harnesses": [
+            {"id": "rate-band", "func": "VerifRateBand", "pkg": NODE, "pkgname": "node", "load": ["./node"],
+             "params": {"quick": {}, "thorough": {}}, "must_cover": ["both", "opr-only", "spr-only", "no-winners"], "max_witness_replays": 6},
+            {"id": "insert-rates", "func": "VerifInsertRates", "pkg": NODE, "pkgname": "node", "load": ["./node"],
+             "params": {"quick": {}, "thorough": {}}, "must_cover": ["inserted", "undefined-phase"], "max_witness_replays": 5},
+        ],
+        "bounds": {"quick": "GetAssetRates for heights >= 2.0.2 (25 % band), 3 assets, every OPR/SPR rate in [0, 2^50], either winner absent; InsertRates for the three pricing phases (+ undefined), 3 assets, rates < 2^62, issuance from two symbolic holders", "thorough": "same"},
+        "assumptions": ["float64 modelled exactly as dyadic rationals; rates < 2^50 so that float64(rate)*1.25 and *0.75 are exact (the engine ends a path as unsupported if a product could need rounding)",
+                        "NOT covered: the closed-era bands (10 %, 1 %, 0.1 %) whose constants are not dyadic and need IEEE rounding; the SyncBlock glue (phase/band by height, no winners => no rates and no holding pass) needs the glue harness",
+                        "a PEG price above 2^63 (equation phase) cannot be stored and is outside the claim"],
+    },
     "C13": {
         "asserts": ["C13.", "uncaught-panic"],
         "harnesses": [
